@@ -3,6 +3,40 @@ from pyvc import dsl
 from pyvc.source import Repo
 
 
+def _replay_cn_prior(name, model):
+    """the solver's counter-model of a cn-prior obligation (minor, normal, err; major = 1..3 is a case split of the harness) run on the real get_major_cn_prior"""
+    if "cn-prior" not in name:
+        return None
+    from fractions import Fraction
+    from phyclone.data.pyclone import get_major_cn_prior
+
+    def val(k, default):
+        v = model.get(k, default)
+        try:
+            return Fraction(str(v))
+        except Exception:
+            return Fraction(default)
+
+    minor, normal, err = int(val("minor", 0)), int(val("normal", 2)), float(val("err", "1/1000"))
+    for major in (1, 2, 3):
+        if major < minor or not (0 < err < 0.5):
+            continue
+        total = major + minor
+        cn, mu, log_pi = get_major_cn_prior(major, minor, normal, error_rate=err)
+        want_cn = [(normal, normal, total)] * major
+        want_mu = [(err, err, min(1 - err, x / total)) for x in range(1, major + 1)]
+        if normal != total:
+            want_cn.append((normal, total, total))
+            want_mu.append((err, err, min(1 - err, 1 / total)))
+        got_cn, got_mu = [tuple(int(v) for v in r) for r in cn], [tuple(float(v) for v in r) for r in mu]
+        bad = got_cn != want_cn or len(got_mu) != len(want_mu) or any(abs(a - b) > 1e-12 for g, w in zip(got_mu, want_mu) for a, b in zip(g, w)) or len(log_pi) != len(want_cn)
+        if bad:
+            return {"reproduced": True, "input": {"major_cn": major, "minor_cn": minor, "normal_cn": normal, "error_rate": err},
+                    "got": {"cn": got_cn, "mu": got_mu}, "expected": {"cn": want_cn, "mu": want_mu},
+                    "cmd": "get_major_cn_prior(%d, %d, %d, error_rate=%r)" % (major, minor, normal, err)}
+    return {"reproduced": False, "note": "the real get_major_cn_prior agrees with the PyClone genotype table at the counter-model's copy numbers for major = 1..3"}
+
+
 def deductive(ctx, repo, prop):
     from contracts import c05_emission as C
 
@@ -11,7 +45,8 @@ def deductive(ctx, repo, prop):
     dsl.verify(ctx, repo, dsl.Registry(), prop, [M + ".log_binomial_pdf", M + ".log_beta_binomial_pdf", M + ".log_binomial_coefficient", M + ".log_beta"], C.h_pdfs,
                expect_covers=["coef", "binomial", "beta-binomial", "beta"])
     dsl.verify(ctx, repo, C.mixture_registry(), prop, [Pc + ".log_pyclone_binomial_pdf", Pc + ".log_pyclone_beta_binomial_pdf"], C.h_mixture, expect_covers=C.MIX_COVERS)
-    dsl.verify(ctx, repo, dsl.Registry(), prop, Pc + ".get_major_cn_prior", C.h_major_cn_prior, expect_covers=["major=1,accepted", "major=3,accepted", "major=1,rejected", "after-cn-change-genotype"])
+    dsl.verify(ctx, repo, dsl.Registry(), prop, Pc + ".get_major_cn_prior", C.h_major_cn_prior, expect_covers=["major=1,accepted", "major=3,accepted", "major=1,rejected", "after-cn-change-genotype"],
+               concretise=_replay_cn_prior)
     dsl.verify(ctx, repo, dsl.Registry(), prop, Pc + "._compute_liklihood_grid", C.h_likelihood_grid, expect_covers=C.GRID_COVERS)
     dsl.verify(ctx, repo, dsl.Registry(), prop, [Pc + ".DataPoint.to_likelihood_grid", Pc + ".DataPoint.get_ccf_grid"], C.h_to_likelihood_grid, expect_covers=["to_grid.case0", "to_grid.case1", "to_grid.case2"])
     ctx.trust(*C.mixture_registry().assumed)
